@@ -17,7 +17,19 @@ use crate::tape::Tape;
 use serde_json::{json, Value};
 use std::time::Instant;
 
-const CREDS: [&[u8]; 2] = [b"credA", b"credB"];
+/// credential identifiers: long and differing only in the last byte, so that a (record, credential id) mix-up is a
+/// near miss (a derivation that shortens or hashes-down the identifier would confuse them)
+static CRED_A: [u8; 300] = {
+    let mut a = [b'c'; 300];
+    a[299] = b'A';
+    a
+};
+static CRED_B: [u8; 300] = {
+    let mut a = [b'c'; 300];
+    a[299] = b'B';
+    a
+};
+static CREDS: [&[u8]; 2] = [&CRED_A, &CRED_B];
 /// registrations: (name, password, credential id index)
 const USERS: [(&str, &[u8], usize); 4] = [("A", b"pwA", 0), ("B", b"pwB", 1), ("C(shares A's password)", b"pwA", 1), ("A(re-registered)", b"pwA", 0)];
 /// client sessions: (name, password)
